@@ -344,6 +344,10 @@ static vp::Verdict check(const Case &c, vp::Ctx &ctx)
         }
     }
     if (!ok) return vp::pass(); // the statement only constrains what Squid accepts
+    // what is accepted is labelled too, so that a parser that starts refusing a whole class shows up in the gates
+    if (ref.hasAuthority && ref.bracketed && !ref.badBracket) ctx.label("accepted:bracketed-ipv6");
+    if (ref.hasAuthority && ref.hasPort) ctx.label("accepted:explicit-port");
+    if (ref.hasAuthority && ref.hasUserinfo) ctx.label("accepted:userinfo");
 
     if (!ref.hasScheme) return vp::fail("uri:accepted-without-scheme", c.method + " " + vp::esc(c.uri));
     const std::string squidScheme = sb(u.getScheme().image());
